@@ -396,3 +396,17 @@ def always_reached(g, node, it=None):
     starts = [d for d, l in g.succ[it] if l == "next"]
     r = g.reach(starts, avoid=[node], exc=False, include_start=True)
     return it not in r and g.exit not in r and g.dominates([it], g.exit, exc=False)
+
+
+def swallowing_handlers(g, node):
+    """Handlers of try statements whose body contains `node` and which can complete normally (the failure of node is swallowed)."""
+    from .rules.c12 import handler_completes
+    out = []
+    for (t, region) in node.trys:
+        if region != "body":
+            continue
+        for h in t.handlers:
+            hn = [x for x in g.nodes_of(h) if x.kind == "except"]
+            if hn and handler_completes(g, hn[0]):
+                out.append(h)
+    return out
